@@ -2489,17 +2489,144 @@ fn regress_case(i: u64) -> GposCase {
     }
 }
 
+// ------------------------------------------------------------------------------------------------------------------
+// pairpos-overlap: class rules whose classes overlap (several class subtables inside one PairPosBuilder)
+
+/// rules = (mask over OV1 for the first class, mask over OV2 for the second class), in insertion order
+#[derive(Clone, Debug, Serialize, Deserialize)]
+struct OvCase {
+    rules: Vec<(u8, u8)>,
+}
+const OV1: [u16; 6] = [10, 11, 12, 13, 14, 15];
+const OV2: [u16; 5] = [50, 51, 52, 53, 54];
+
+fn ov_strategy() -> impl Strategy<Value = OvCase> {
+    // small masks favoured: singletons and pairs overlap with larger classes without being equal to them
+    let m1 = prop_oneof![2 => (0u32..6).prop_map(|i| 1u8 << i), 2 => (0u32..6, 0u32..6).prop_map(|(i, j)| (1u8 << i) | (1u8 << j)), 1 => 1u8..64];
+    let m2 = prop_oneof![2 => (0u32..5).prop_map(|i| 1u8 << i), 1 => 1u8..32];
+    proptest::collection::vec((m1, m2), 2..9).prop_map(|rules| OvCase { rules })
+}
+
+/// Oracle independent of how the builder distributes rules over subtables, as long as rules stay in insertion order
+/// (format 2 subtables are walked in order; the first one covering the first glyph decides): for a pair (g1, g2) let
+/// R be the first inserted rule whose first class holds g1. No rule => no adjustment. g2 in R's second class => R's
+/// value (any subtable before R's holds only earlier rules, none of which covers g1; within R's subtable classes are
+/// disjoint or identical, so g1's class is R's first class and g2's class is R's second class). Otherwise the answer
+/// depends on which later rules share R's subtable: not asserted, counted.
+fn test_overlap(c: &OvCase, stats: &Stats) -> CaseResult {
+    let members = |u: &[u16], m: u8| -> Vec<u16> { u.iter().enumerate().filter(|(i, _)| (m >> i) & 1 == 1).map(|(_, g)| *g).collect() };
+    let mut seen = BTreeSet::new();
+    let rules: Vec<(u8, u8)> = c.rules.iter().copied().filter(|r| seen.insert(*r)).collect();
+    let mut b = PairPosBuilder::default();
+    for (i, (m1, m2)) in rules.iter().enumerate() {
+        b.insert_classes(intset(members(&OV1, *m1)), ValueRecordBuilder::new().with_x_advance((i as i16 + 1) * 10), intset(members(&OV2, *m2)), ValueRecordBuilder::new());
+    }
+    let mut vs = VariationStoreBuilder::new(0);
+    let lk = LookupBuilder::<PairPosBuilder>::new_with_lookups(LookupFlag::empty(), None, vec![b]).build(&mut vs);
+    let mut blobs = vec![];
+    for st in &lk.subtables {
+        match dump_table(st.as_ref()) {
+            Ok(bytes) => blobs.push(bytes),
+            Err(_) => {
+                stats.class("overlap:dump-failed");
+                return Ok(());
+            }
+        }
+    }
+    let mut subs = vec![];
+    for bytes in &blobs {
+        subs.push(rd(rg::PairPos::read(FontData::new(bytes)), "pair subtable of the overlap stage")?);
+    }
+    let (mut asserted, mut skipped) = (0u32, 0u32);
+    for g1 in OV1.iter().copied().chain([9, 16]) {
+        for g2 in OV2.iter().copied().chain([49, 55]) {
+            let first = rules.iter().position(|(m1, _)| members(&OV1, *m1).contains(&g1));
+            let want: Option<i16> = match first {
+                None => Some(0),
+                Some(k) if members(&OV2, rules[k].1).contains(&g2) => Some((k as i16 + 1) * 10),
+                Some(_) => None,
+            };
+            let Some(want) = want else {
+                skipped += 1;
+                continue;
+            };
+            let mut got = 0i16;
+            for sub in &subs {
+                match sub {
+                    rg::PairPos::Format2(t) => {
+                        let cov = rd(t.coverage(), "coverage")?;
+                        if cov.get(GlyphId16::new(g1)).is_none() {
+                            continue;
+                        }
+                        let c1 = rd(t.class_def1(), "class def 1")?.get(GlyphId16::new(g1));
+                        let c2 = rd(t.class_def2(), "class def 2")?.get(GlyphId16::new(g2));
+                        if c1 >= t.class1_count() || c2 >= t.class2_count() {
+                            continue;
+                        }
+                        let r1 = rd(t.class1_records().get(c1 as usize), "class1 record")?;
+                        let r2 = rd(r1.class2_records().get(c2 as usize), "class2 record")?;
+                        got = r2.value_record1().x_advance().unwrap_or(0);
+                        break;
+                    }
+                    rg::PairPos::Format1(t) => {
+                        let cov = rd(t.coverage(), "coverage")?;
+                        if let Some(ci) = cov.get(GlyphId16::new(g1)) {
+                            let ps = rd(t.pair_sets().get(ci as usize), "pair set")?;
+                            let mut hit = None;
+                            for r in ps.pair_value_records().iter() {
+                                let r = rd(r, "pair value record")?;
+                                if r.second_glyph().to_u16() == g2 {
+                                    hit = Some(r.value_record1().x_advance().unwrap_or(0));
+                                }
+                            }
+                            if let Some(v) = hit {
+                                got = v;
+                                break;
+                            }
+                        }
+                    }
+                }
+            }
+            asserted += 1;
+            if got != want {
+                return Err(fail(
+                    "overlap|pair-mismatch",
+                    format!(
+                        "class rules {:?} (first-class glyphs, second-class glyphs, x advance): pair ({g1}, {g2}) — the first rule whose first class holds {g1} is {:?}, expected x advance {want}, the {} compiled subtables give {got}",
+                        rules.iter().enumerate().map(|(i, (a, b))| (members(&OV1, *a), members(&OV2, *b), (i + 1) * 10)).collect::<Vec<_>>(),
+                        first.map(|k| k + 1),
+                        subs.len()
+                    ),
+                ));
+            }
+        }
+    }
+    stats.evals(asserted as u64);
+    stats.class(&format!("overlap:subtables={}", subs.len().min(5)));
+    stats.class_n("overlap:pairs-asserted", asserted as u64);
+    stats.class_n("overlap:pairs-not-asserted", skipped as u64);
+    if subs.len() >= 2 {
+        let mut h = 0u64;
+        for (a, b) in &rules {
+            h = h.wrapping_mul(0x100000001b3).wrapping_add(((*a as u64) << 8) | *b as u64);
+        }
+        stats.nontrivial(h ^ 0x0c16_0000);
+    }
+    Ok(())
+}
+
 fn main() {
     let ctx = Ctx::from_args("C16");
     ctx.set_rule(
         "sets: proptest glyph sets (sparse / runs / dense / combs / nearly-all, extremes 0 and 65535) fed to CoverageTableBuilder (5 construction paths), ClassDefBuilder (both class-0 modes, overlapping and repeated candidates) and ClassDef::from_iter; non-trivial = both binary formats (1 and 2) occurred among the tables of the case. \
-         gpos-*: rule sets for 1..4 lookups of all six non-contextual GPOS builders (MarkToLig: 1..5 components, per class an anchor list with None at leading/middle/trailing positions, classes absent, add_ligature_components_directly; MarkToMark; Cursive: entry-only/exit-only/both/neither; SinglePos: equal and differing records; PairPos: glyph pairs with first-wins duplicates, regular pair blocks incl. identical pair sets, class rules on disjoint class partitions; MarkToBase: 1..8 classes, anchor formats 1-3) with a palette of value records (1..8 fields, device and variation-index records), compiled through the public builders, LookupBuilder, Gpos, dump_table; small = explicit rules, medium = around 64 KiB, large = several x 64 KiB. \
+         gpos-*: rule sets for 1..4 lookups of all six non-contextual GPOS builders (MarkToLig: 1..5 components, per class an anchor list with None at leading/middle/trailing positions, classes absent, add_ligature_components_directly; MarkToMark; Cursive: entry-only/exit-only/both/neither; SinglePos: equal and differing records; PairPos: glyph pairs with first-wins duplicates, regular pair blocks incl. identical pair sets, class rules on disjoint class partitions (overlapping classes: stage pairpos-overlap, 2..8 class rules over 6 x 5 glyphs with overlapping first / second classes, forcing several class subtables inside one builder; oracle = the first inserted rule whose first class holds the first glyph decides when its second class holds the second glyph; non-trivial = two or more subtables); MarkToBase: 1..8 classes, anchor formats 1-3) with a palette of value records (1..8 fields, device and variation-index records), compiled through the public builders, LookupBuilder, Gpos, dump_table; small = explicit rules, medium = around 64 KiB, large = several x 64 KiB. \
          Non-trivial = the compiled GPOS has a lookup promoted to extension or a lookup with more subtables than the builders produced (split); distinct by hash of the case.",
     );
     ctx.assume("read-fonts parses the tables the walker navigates (coverage/classdef get, record arrays, offsets); precedence model: per PairPosBuilder glyph-pair rules first (first inserted wins), then its class subtable decides for every first glyph it covers; builders of a lookup in order; mark/base, mark/mark, mark/ligature component: first builder holding the mark whose base (mark2, component) has an anchor for the mark's class; cursive and single: the first builder that mentions the glyph; an all-zero adjustment and 'no subtable applied' are the same observable; a case whose dump_table fails (packing) is counted, not judged");
     ctx.index_stage("regress-empty-markbase", Isolation::Threads, 3, regress_case, test_gpos);
     ctx.prop_stage("sets", Isolation::Threads, ctx.n(8_000, 100_000), sets_strategy, test_sets);
     let budget: u32 = if ctx.quick() { 400_000 } else { 1_500_000 };
+    ctx.prop_stage("pairpos-overlap", Isolation::Threads, ctx.n(30_000, 400_000), ov_strategy, test_overlap);
     ctx.prop_stage("gpos-small", Isolation::Threads, ctx.n(2_000, 24_000), move || gpos_strategy(0, budget), test_gpos);
     ctx.prop_stage("gpos-medium", Isolation::Threads, ctx.n(400, 2_400), move || gpos_strategy(1, budget), test_gpos);
     ctx.prop_stage("gpos-large", Isolation::Threads, ctx.n(100, 480), move || gpos_strategy(2, budget), test_gpos);
